@@ -233,7 +233,9 @@ func atomOf(rc resolvedCond, truth bool) (Atom, bool) {
 	if !truth {
 		op = negOp[op]
 	}
-	return Atom{Path(rc.x), op, Path(rc.y)}, true
+	a := mkAtom(Path(rc.x), op, Path(rc.y))
+	a.U = isUnsigned(rc.x.Type())
+	return a, true
 }
 
 // learn records what crossing the edge teaches about values that condition phis merge.
@@ -535,7 +537,7 @@ func threadedGuardEdgesCanon(fn *ssa.Function, g guardSpec, canon func(string) s
 		for i, cands := range ts {
 			cc := make([]Atom, len(cands))
 			for j, a := range cands {
-				cc[j] = Atom{canon(a.L), a.Op, canon(a.R)}
+				cc[j] = mkAtom(canon(a.L), a.Op, canon(a.R))
 			}
 			a, ok := satisfiesAny(g, cc)
 			if !ok {
@@ -566,7 +568,7 @@ func reachGuardedCanon(fn *ssa.Function, g guardSpec, canon func(string) string,
 		}
 		for _, a := range cands {
 			if canon != nil {
-				a = Atom{canon(a.L), a.Op, canon(a.R)}
+				a = mkAtom(canon(a.L), a.Op, canon(a.R))
 			}
 			for _, sp := range g.atoms {
 				if sp.Satisfies(a) {
